@@ -158,6 +158,9 @@ type mCommit struct {
 	Delete  bool
 	Block   []byte
 	VerKey string // schema version (key, see e1Run.nodeKnown) the writer was on (C19)
+	// Detached: fields this commit writes although its writer had ignored an earlier write
+	// of them at a merge (no version it held then had the field): finding identity (C19)
+	Detached map[string]bool
 }
 
 type e1Run struct {
@@ -574,7 +577,13 @@ func (r *e1Run) checkNode(step, node int, why string) {
 				continue
 			}
 			if !e.Regs[f.Name][got] {
-				r.res.violate(r.pid("C02"), "register-not-latest", "register-not-latest/"+r.historyClass(node, slot), step,
+				cls := r.historyClass(node, slot)
+				for c := range set {
+					if r.commits[c].Detached[f.Name] {
+						cls = "written-by-node-that-ignored-the-field"
+					}
+				}
+				r.res.violate(r.pid("C02"), "register-not-latest", "register-not-latest/"+cls, step,
 					"node %d doc %d field %s = %s, causally latest writes = %v (%s; merged=%v)", node, slot, f.Name, got, sortedKeys(e.Regs[f.Name]), why, r.setStr(set))
 				return
 			}
@@ -738,6 +747,15 @@ func (r *e1Run) collectLocal(step, node, slot int, writes map[string]string, inc
 	}
 	c := &mCommit{Idx: len(r.commits), Cid: cs, C: docUp.Cid, Doc: slot, Origin: node, Parents: parents,
 		Writes: writes, Incs: incs, Delete: del, Block: docUp.Block, VerKey: r.nodeActive[node]}
+	for f := range writes {
+		if r.hiddenField(node, slot, f) {
+			if c.Detached == nil {
+				c.Detached = map[string]bool{}
+			}
+			c.Detached[f] = true
+			r.res.Stats["write_of_field_ignored_earlier"]++
+		}
+	}
 	r.commits = append(r.commits, c)
 	r.byCid[cs] = c.Idx
 	// concurrency statistic
